@@ -237,7 +237,10 @@ def evaluate_simple(run, p, h, r):
     if r.status in ("TIMEOUT", "ERROR", "UNKNOWN"):
         run.machinery.append("harness %s: %s (no verdict within the cap)" % (full, r.status))
         return False
-    real = [c for c in r.failed_checks if "unwinding assertion" not in c]
+    # a failed LOOP unwinding assertion means our bound is too small for the current code (machinery); a failed
+    # RECURSION unwinding assertion on code that has no recursion on the reference tree is a candidate violation
+    # (unbounded recursion) and goes to native replay like any other failed check
+    real = [c for c in r.failed_checks if "unwinding assertion" not in c or "recursion unwinding assertion" in c]
     if not real and r.failed_checks:
         run.machinery.append("harness %s: unwinding assertion failed (bound too small for the current code): %s" % (
             full, r.failed_checks[0]))
@@ -247,7 +250,7 @@ def evaluate_simple(run, p, h, r):
 
 def evaluate_failed(run, p, h, r, known, feats, pb):
     full = r.full
-    real = [c for c in r.failed_checks if "unwinding assertion" not in c]
+    real = [c for c in r.failed_checks if "unwinding assertion" not in c or "recursion unwinding assertion" in c]
     if h.should_panic:
         replay = fw.native_replay(run.cdir, run.pid, full, [], run.log, features=feats_native(feats))
         test = {"check": "expected a panic, none occurred", "vals": []}
@@ -260,6 +263,8 @@ def evaluate_failed(run, p, h, r, known, feats, pb):
     # NB: Kani de-duplicates playback tests by their concrete values, so the values of a failing assertion may
     # be printed under a `cover` heading; every distinct value vector is therefore replayed natively.
     tests.sort(key=lambda t: t["check_kind"] == "cover")
+    if not tests and h.kind == "witness":
+        tests = [{"check_kind": "assertion", "check": (real[0] if real else "failed"), "vals": []}]   # no free variable: nothing to play back
     if not tests:
         run.machinery.append("harness %s FAILED (%s) but no concrete playback values were produced" % (
             full, "; ".join(r.failed_checks[:3])))
